@@ -343,6 +343,25 @@ func c18Random(c *Ctx, p *Prog, fns []*ssa.Function, inScope func(*ssa.Function)
 			}
 		})
 	}
+	// a generator kept in a package-level variable is shared by every comparison (and by concurrent AddSummaries calls):
+	// its stream then depends on who else is drawing from it
+	for _, fn := range p.Funcs("benchseries") {
+		eachInstr(fn, func(_ *ssa.BasicBlock, in ssa.Instruction) {
+			st, ok := in.(*ssa.Store)
+			if !ok {
+				return
+			}
+			g, ok := st.Addr.(*ssa.Global)
+			if !ok {
+				return
+			}
+			ts := g.Type().(*types.Pointer).Elem().String()
+			if strings.HasPrefix(ts, "*math/rand") || strings.HasPrefix(ts, "math/rand") {
+				nSrc++
+				c.Bad(R, "shared generator:"+g.Name(), p.pos(g.Pos()), "the random generator "+g.Name()+" lives in a package-level variable and is reseeded per comparison instead of being created per comparison: summaries computed concurrently (or re-entrantly) interleave their draws, so low/centre/high are no longer a function of the point's samples")
+			}
+		})
+	}
 	c.Floor(R, "seeded random sources", nSrc, 1)
 	// the hash covers every value: loop over Values folding each element
 	if fn := p.Method("benchseries", "Cell", "hash"); fn != nil {
